@@ -34,7 +34,9 @@ TEXTS = {"t1": "CREATE TABLE \"t1\" (a int, b varchar(3) DEFAULT 'x');\n",
          "t4": "CREATE TABLE a (x int);\nCREATE TABLE b (y int);\nALTER TABLE a ADD UNIQUE (x);\n",
          "t5": "",
          # collected (trailing / inline) comments: what one file leaves behind must not show up in the next file's result
-         "t6": "CREATE TABLE c (x int); -- note one\nCREATE TABLE d (y int /* in */, z int);\n"}
+         "t6": "CREATE TABLE c (x int); -- note one\nCREATE TABLE d (y int /* in */, z int);\n",
+         # the same with CRLF line ends (the file is read in text mode, the in-memory reference gets the decoded bytes)
+         "t7": "CREATE TABLE c (x int); -- note one\r\nCREATE TABLE d (\r\n  y int, /* in */\r\n  z int\r\n);\r\n-- tail\r\n"}
 ENC = ["utf-8", "utf-16", "latin-1", "cp1251"]
 NAMES = ["a.sql", "b.c.sql", "noext", "UP.SQL", "with space.sql", ".hidden.sql", "d.ddl", "e.hql", "f.bql", "g.txt"]
 TSTATES = ["missing", "nested", "empty", "stale"]
@@ -55,7 +57,7 @@ def gen_cases(tier):
                 TEXTS[tk].encode(enc)
             except UnicodeEncodeError:
                 continue
-            for name in (names if tier == "thorough" or tk in ("t1", "t2") else names[:3]):
+            for name in (names if tier == "thorough" or tk in ("t1", "t2", "t7") else names[:3]):
                 for ts in TSTATES:
                     for dump in (False, True):
                         for si in (range(len(SETTINGS)) if (name == "a.sql" and enc in ("utf-8", "utf-16")) else (0, 1)):
